@@ -275,6 +275,7 @@ func runC13(c *Ctx) {
 
 	// ---- per-connection concurrency limit
 	c13Limit(c)
+	c13IdleMidFrame(c)
 }
 
 func c13Limit(c *Ctx) {
@@ -432,4 +433,82 @@ func c13Aborted(c *Ctx, b *Bed, listeners []string) {
 			c.Ev.Distinct("aborted-then-fresh", listener, round)
 		}
 	}
+}
+
+
+// c13IdleMidFrame: listeners with a 1 s idle time-out; a slow query is in flight while the next
+// frame arrives in two segments 1.4 s apart. Whatever the listener does at its deadline (closing
+// the connection is fine), it never treats the rest of a frame as a new frame: the second half of
+// the cut query holds, inside an EDNS0 option, octets that look like a complete framed query with
+// id 0x7777 - an answer with that id is an answer to something that was never sent as a frame.
+func c13IdleMidFrame(c *Ctx) {
+	listeners := []string{"tcp", "tls", "gnet"}
+	b, err := NewBed(c, "idle", BedOpts{Listeners: listeners, Upstreams: []string{"pipe"}, IdleTimeout: 1})
+	if err != nil {
+		c.startFailure(err, "c13-idle")
+		return
+	}
+	defer b.Stop()
+	var wg sync.WaitGroup
+	for _, listener := range listeners {
+		for rep := 0; rep < c.N(2, 8); rep++ {
+			wg.Add(1)
+			go func(listener string, rep int) {
+				defer wg.Done()
+				var tc = b.ProxyTLS
+				if listener != "tls" {
+					tc = nil
+				}
+				sc, err := dnsclient.DialStream("", b.L[listener], tc)
+				if err != nil {
+					return
+				}
+				defer sc.Close()
+				sc.SendFrame(mkQuery(1, fmt.Sprintf("ok-d2500-slow%dr%d.pipe.test.", rep, len(listener)), dns.TypeA, dns.ClassINET, false))
+				ghost := dnsclient.Frame(mkQuery(0x7777, fmt.Sprintf("ok-ghost%dr%d.pipe.test.", rep, len(listener)), dns.TypeA, dns.ClassINET, false))
+				q2 := new(dns.Msg)
+				q2.Id = 2
+				q2.RecursionDesired = true
+				q2.Question = []dns.Question{{Name: fmt.Sprintf("ok-cut%dr%d.pipe.test.", rep, len(listener)), Qtype: dns.TypeA, Qclass: dns.ClassINET}}
+				o := &dns.OPT{Hdr: dns.RR_Header{Name: ".", Rrtype: dns.TypeOPT}}
+				o.SetUDPSize(1232)
+				o.Option = append(o.Option, &dns.EDNS0_LOCAL{Code: 65001, Data: ghost})
+				q2.Extra = append(q2.Extra, o)
+				w2, _ := q2.Pack()
+				f2 := dnsclient.Frame(w2)
+				cut := len(f2) - len(ghost) // the second segment starts exactly where the look-alike frame starts
+				sc.WriteRaw(f2[:cut])
+				time.Sleep(1400 * time.Millisecond)
+				sc.WriteRaw(f2[cut:])
+				sc.SendFrame(mkQuery(3, fmt.Sprintf("ok-third%dr%d.pipe.test.", rep, len(listener)), dns.TypeA, dns.ClassINET, false))
+				sc.WaitFrames(3, 4*time.Second)
+				c.Ev.Eval(1)
+				ids := []uint16{}
+				for _, f := range sc.Frames() {
+					m := new(dns.Msg)
+					if m.Unpack(f.Data) != nil {
+						c.Violation("idle-mid-frame:undecodable-frame:"+listener, fmt.Sprintf("%s (idle_timeout 1 s): a response frame does not decode after a frame arrived in two segments 1.4 s apart", listener), map[string]any{"listener": listener, "frame_hex": hex.EncodeToString(f.Data[:min(len(f.Data), 80)])})
+						return
+					}
+					ids = append(ids, m.Id)
+					if m.Id != 1 && m.Id != 2 && m.Id != 3 {
+						c.Violation("idle-mid-frame:answer-to-unsent-query:"+listener, fmt.Sprintf("%s (idle_timeout 1 s): a response with id %#04x for %q arrived; no such query was sent - those octets travelled inside the body of the frame that was cut in two", listener, m.Id, func() string {
+							if len(m.Question) > 0 {
+								return m.Question[0].Name
+							}
+							return ""
+						}()), map[string]any{"listener": listener, "ids_answered": ids})
+						return
+					}
+				}
+				_, trailing, _ := sc.State()
+				if len(trailing) > 0 {
+					c.Violation("idle-mid-frame:stray-bytes:"+listener, fmt.Sprintf("%s: %d stray octets after the last complete frame", listener, len(trailing)), map[string]any{"listener": listener})
+					return
+				}
+				c.Ev.Distinct("idle-mid-frame", listener, len(ids))
+			}(listener, rep)
+		}
+	}
+	wg.Wait()
 }
